@@ -33,3 +33,7 @@ func init() {
 	propTable["C19"].Rules = []string{"GLOBALS"}
 	prop("TMP-PLANS", []string{"FILTERED", "NOROWDROP", "ADJUSTCALL", "MGETSORT", "GETNIL", "BYTESFRESH", "CACHECOPY"}, "temporary grouping while rules are being built", "")
 }
+
+func init() {
+	prop("TMP-LIMIT", []string{"CONSUMED", "LIMITGATE", "LIMITMAP", "FETCHLOOPEND"}, "temporary grouping while rules are being built", "")
+}
